@@ -1394,7 +1394,11 @@ class DynFn:
 
     def for_stmt(self, s, ctx, rest, out):
         if s.orelse:
-            self.fail(s, 'for … else')
+            # `for … else`: the else block runs when the loop was not left by `break`; without a `break` in the body that
+            # is: always after the loop (a `return` / exception in the body leaves the function anyway)
+            if any(isinstance(x, ast.Break) for x in self.own_nodes(s.body)):
+                self.fail(s, 'for … else with a break in the body')
+            rest = list(s.orelse) + list(rest)
         xs = self.iterable(s.iter, out)
         d0 = set(self.defined)
         body_assigned = self.assigned(s.body)
@@ -1411,6 +1415,9 @@ class DynFn:
             term = 'Dyn.forM %s %s (fun %s %s => do\n%s)' % (xs, self.pack(lvars), self.pack(lvars) if lvars else '_', x,
                                                           '\n'.join(ind(lines, 4)))
             out.append('let %s ← %s' % (self.pack(lvars) if lvars else '_', term))
+            if s.orelse:
+                out.extend(self.block(rest, ctx))
+                return True
             return False
         sub = Ctx('flow4', lvars, lvars)
         lines = pre + self.block(s.body, sub)
@@ -1423,6 +1430,9 @@ class DynFn:
             out.append('let %s ← %s' % (t, term))
             out.append('let %s ← (match %s with | Dyn.Flow.next s__ => pure s__ | Dyn.Flow.ret (r__ : Unit) => throw Dyn.Exc.RuntimeError)'
                        % (self.pack(lvars) if lvars else '_', t))
+            if s.orelse:
+                out.extend(self.block(rest, ctx))
+                return True
             return False
         t = self.temp()
         out.append('let %s ← %s' % (t, term))
@@ -1512,7 +1522,18 @@ class DynFn:
                for x in self.own_nodes(node.body)):
             self.fail(node, 'generator / global / while / with')
         names = [x.arg for x in a.args]
-        body_reads = self.reads(node.body)
+        # `self` counts as used only outside the receiver of an ignored (logging) call: `self.debug(…)` reads nothing
+        ignored_funcs = {id(x.func) for x in ast.walk(node) if isinstance(x, ast.Call)
+                         and re.search(self.ignore_calls, ast.unparse(x))}
+        body_reads = set()
+        stack = list(node.body)
+        while stack:
+            x = stack.pop()
+            if id(x) in ignored_funcs:
+                continue
+            if isinstance(x, ast.Name) and isinstance(x.ctx, ast.Load):
+                body_reads.add(x.id)
+            stack.extend(ast.iter_child_nodes(x))
         self.takes_self = bool(names) and names[0] == 'self' and self.spec.get('cls') is not None
         if self.takes_self and 'self' not in body_reads and not self.spec.get('keep_self'):
             names = names[1:]
